@@ -27,6 +27,7 @@ structure OPObj where
   constant : Bool
   perInstance : Bool
   checkOnSet : Bool
+  allowRefs : Bool
   precedence : Option Int
   boundsTup : Option (Int × Int)
   mslots : List (Slot × CellId × List Int)
@@ -62,7 +63,7 @@ def insertSlot (e : Slot × CellId × List Int) : List (Slot × CellId × List I
 
 def obsP (cells : List (List Int)) (p : PObj) : OPObj :=
   { kind := p.kind, owner := p.owner, default := obsVal cells p.default, instantiate := p.instantiate,
-    constant := p.constant, perInstance := p.perInstance, checkOnSet := p.checkOnSet,
+    constant := p.constant, perInstance := p.perInstance, checkOnSet := p.checkOnSet, allowRefs := p.allowRefs,
     precedence := p.precedence, boundsTup := p.boundsTup,
     mslots := (p.mslots.map fun (s, c) => (s, c, deref cells c)).foldr insertSlot [] }
 
@@ -219,7 +220,9 @@ def litMatches (prev : Snap) (lit : Lit) (v : OVal) : Bool :=
   | _, _ => false
 
 /-- the rules for `K(**kwargs)` creating instance `j` -/
-def creationOK (prev cur : Snap) (k : ClsId) (kwargs : List (Name × Lit)) : Option String :=
+def creationOK (prev cur : Snap) (k : ClsId) (kwargs0 : List (Name × Lit)) : Option String :=
+  -- a keyword whose reference has no value yet assigns nothing: the parameter is as if not given
+  let kwargs := kwargs0.filter (fun kv => !kv.2.isPending)
   if cur.classes != prev.classes then some "creating an instance changed what a class sees"
   else if cur.insts.take prev.insts.length != prev.insts then some "creating an instance changed what another instance sees"
   else if cur.err.isSome then
@@ -272,6 +275,8 @@ def stepOK (prev cur : Snap) (op : Op) : Option String :=
     | _ => if cur.classes != prev.classes || cur.insts != prev.insts then some "failed mutation had an effect" else none
   | .mkClass _ _ =>
     if cur.insts != prev.insts then some "declaring a class changed an instance" else none
+  | .sharedFail =>
+    if cur.classes != prev.classes || cur.insts != prev.insts then some "a failed shared_parameters block had an effect" else none
   | .setVal (.cls _) _ _ | .slotSet (.cls _) _ _ | .slotMut (.cls _) _ _ =>
     -- a class-level change never touches what an instance *owns*: its values (set_instance_keeps_own,
     -- constant_keeps_construction_object) and its Parameter copies
